@@ -1,4 +1,5 @@
 import RV.Proofs.BufferSortTop
+import RV.Proofs.BufferFast
 /-!
 # C11 — z.Buffer returns what was written, in order, and sorts correctly
 
@@ -393,6 +394,12 @@ theorem c11_sort_edges (sortFn : SortFn) (less : Bytes → Bytes → Bool) (b : 
     (start = 0 → 0 < end_ → sortSliceBetween sortFn less b start end_ = .error .startZero) :=
   ⟨fun hle => sortSliceBetween_empty sortFn less b start end_ hs he hle,
    fun h0 hp => h0 ▸ sortSliceBetween_zero sortFn less b end_ he hp⟩
+
+/-- The trace validator runs `sortSliceBetweenFast` (pure merge loop, linear per merge)
+instead of the model's in-place `sortSliceBetween`; they are the same function. -/
+theorem validator_runs_the_model (sortFn : SortFn) (less : Bytes → Bytes → Bool) (b : Buf) (start end_ : Nat) :
+    sortSliceBetweenFast sortFn less b start end_ = sortSliceBetween sortFn less b start end_ :=
+  sortSliceBetweenFast_eq sortFn less b start end_
 
 /-- the contract assumed of `sort.Slice` is satisfiable -/
 theorem sortContract_satisfiable : SortContract insertionSort := insertionSort_contract
